@@ -16,11 +16,17 @@ R23c read/write(_batch) from Issue or Reconnect never reach `raise HardwareLayer
 R23d last_known_good_reads is written only after a successful decorated read, and every return in a
      masked branch yields last-known-good values (or None when none exists).
 R23e timer origins are fresh: the attribute the Issue -> Reconnect timeout is measured from is assigned
-     the current time on every path of every success_* method, and every successful decorated read /
-     write reaches such a method before returning; the attribute the Reconnect -> Error timeout is
+     the current time on every path of every success_* method, every successful decorated read /
+     write reaches such a method before returning, and every other transition into OK (a reconnect that succeeded in tick)
+     refreshes it as well; the attribute the Reconnect -> Error timeout is
      measured from is assigned the current time on every path after `state = Reconnect` (directly or
      in the callback called there). Otherwise "no success within the timeout" is measured from a stale
      origin and the transition fires early.
+R23f a success needs evidence: the batch methods book a success (success_read / success_write: Issue -> OK, timer origin refreshed) only
+     after the decorated hardware was asked for at least one register - on every path to the success call the *caller's* register
+     list has been tested non-empty. The engine calls write_batch([], []) in every tick of a uod without write registers (and
+     read_batch([]) for one without read registers); booked as a success it takes Issue back to OK every tick, so failing reads
+     never reach Reconnect or Error, Connection Status stays Connected and the stale value is reported for good.
 Decides the protocol shape for all fault sequences; the timeout arithmetic itself is not decided.
 """
 from __future__ import annotations
@@ -312,6 +318,33 @@ def run(ctx) -> None:
             if what:
                 ctx.fail("R23d", fn, n, f"{fn.short}: {norm(n)[:90]}", f"last_known_good_reads {what}")
 
+    # ---- R23f
+    ctx.rule("R23f", "a batch that touched no register is not booked as a success")
+    from ..cfg import facts_at as _facts23
+    for name in ("read_batch", "write_batch"):
+        m = cls.find_method(name)
+        if m is None:
+            raise AnchorError(f"{name} missing")
+        g_ = cfg_of(m)
+        rpar = [a.arg for a in m.node.args.args if a.arg != "self"][-1]
+        succ = [n for n in g_.nodes if n.ast is not None and any(call_attr(c) in ("success_read", "success_write") for c in n.calls())]
+        if not succ:
+            raise AnchorError(f"{name}: success bookkeeping call not found")
+        inst = f"{name}: success is booked only when the caller asked for at least one register"
+        ok_ = True
+        for sn in succ:
+            fx = _facts23(g_, sn)
+            nonempty = any((a in (f"len({rpar}) == 0", f"not {rpar}", f"len({rpar}) < 1") and not pol) or
+                           (a in (f"len({rpar}) > 0", f"len({rpar}) != 0", f"{rpar}", f"len({rpar}) >= 1") and pol) for a, pol in fx)
+            if not nonempty:
+                ok_ = False
+        if ok_:
+            ctx.ok("R23f", inst)
+        else:
+            ctx.fail("R23f", m, succ[0].ast, inst, f"`{succ[0].text()[:50]}` is reached for an empty register list as well: Engine.write_process_image calls "
+                     "write_batch([], []) in every tick of a uod that has only read registers, which is booked as a successful write - with the "
+                     "hardware dead for 60 s (600 failed reads, no successful access) the state never leaves OK/Issue, no reconnect is attempted, "
+                     "Connection Status stays Connected and the engine never enters its error state")
     # ---- R23e
     from ..util import local_single_defs, expand_local
     erw = cls.find_method("error_read_write")
@@ -349,6 +382,37 @@ def run(ctx) -> None:
     writers = [m for m in cls.methods.values() if m.name != "__init__" and any(assigns_now(m, t1)(x) for x in cfg_of(m).nodes)]
     if not writers:
         raise AnchorError(f"no method refreshes {t1}")
+    # the "on every path" obligation is for the success bookkeeping methods (the ones a successful hardware access calls); a method
+    # that refreshes the origin as part of a transition (tick: reconnect succeeded) is checked per transition below
+    called_from_rw = {call_attr(c) for nm in RW for c in walk_no_nested(cls.find_method(nm).node)
+                      if isinstance(c, ast.Call) and isinstance(c.func, ast.Attribute) and norm(c.func.value) == "self"}
+    trans_writers = [m for m in writers if m.name not in called_from_rw]
+    writers = [m for m in writers if m not in trans_writers]
+    if not writers:
+        raise AnchorError(f"no success method refreshes {t1}")
+    # every transition *into OK* that is not made by a success method (a reconnect that succeeded) starts the Issue clock afresh:
+    # nothing is read or written while reconnecting, so the last success is older than the whole outage
+    for m in cls.methods.values():
+        if m.name == "__init__" or m in writers:
+            continue
+        g_ = cfg_of(m)
+        for x in g_.nodes:
+            if x.kind == "stmt" and isinstance(x.ast, ast.Assign) and any(isinstance(t, ast.Attribute) and t.attr == "state" and norm(t.value) == "self"
+                                                                            for t in x.ast.targets) and norm(x.ast.value).endswith(".OK"):
+                if m.name in ("connect",):
+                    continue        # first connection: __init__ has set the origin
+                ctx.analysed(m)
+                inst = f"{m.name}: the transition to OK restarts the clock of the Issue timeout ({t1})"
+                refreshed = any(assigns_now(m, t1)(y) and (g_.dominates(y, x) or g_.path_to_exit_avoiding([x.id], lambda z, y=y: z.id == y.id) is None)
+                                for y in g_.nodes) or any(call_attr(c) in {w.name for w in writers} for y in g_.nodes for c in y.calls()
+                                                          if g_.dominates(y, x) or g_.dominates(x, y))
+                if refreshed:
+                    ctx.ok("R23e", inst)
+                else:
+                    ctx.fail("R23e", m, x.ast, inst, f"the state becomes OK without refreshing {t1}: after a successful reconnect the first failed "
+                             "read/write moves OK -> Issue and the very next failure (0.1 s later) Issue -> Reconnect, because the timeout is "
+                             "measured from a success that predates the outage - the Issue state, in which reads are masked for "
+                             "reconnect_timeout_seconds, is skipped")
     good = set()
     for m in writers:
         ctx.analysed(m)
